@@ -57,7 +57,18 @@ func (fs *fundAndSign) ReleaseInputs(txns []types.V2Transaction)        { fs.w.R
 func (fs *fundAndSign) SignV2Inputs(txn *types.V2Transaction, ts []int) { fs.w.SignV2Inputs(txn, ts) }
 func (fs *fundAndSign) SignHash(h types.Hash256) types.Signature        { return fs.pk.SignHash(h) }
 
-const numSectors = 12 // ground-truth sectors owned by the harness
+const numSectors = 12 // ground-truth sectors of random bytes owned by the harness (indices 0..11)
+
+// zeroTail[i]: length of the non-zero prefix of ground-truth sector numSectors+i
+var zeroTail = []int{1024, proto4.SectorSize / 2, proto4.SectorSize - 64}
+
+// nonZeroPrefix returns the length of the non-zero prefix of a ground-truth sector.
+func nonZeroPrefix(sector int) uint64 {
+	if sector >= numSectors {
+		return uint64(zeroTail[sector-numSectors])
+	}
+	return proto4.SectorSize
+}
 
 type env struct {
 	tb        testing.TB
@@ -200,9 +211,15 @@ func newEnv(tb testing.TB) *env {
 	e.refreshPrices()
 
 	// ground-truth sectors, stored on the host directly through the Sectors interface
-	for i := 0; i < numSectors; i++ {
+	// sectors numSectors.. are ZERO-TAILED: random bytes up to zeroTail[i], zeros from there on -- what
+	// a host stores for any RPCWriteSector upload shorter than a sector
+	for i := 0; i < numSectors+len(zeroTail); i++ {
 		var sector [proto4.SectorSize]byte
-		copy(sector[:], detBytes(fmt.Sprintf("sector/%d", i), proto4.SectorSize))
+		n := proto4.SectorSize
+		if i >= numSectors {
+			n = zeroTail[i-numSectors]
+		}
+		copy(sector[:], detBytes(fmt.Sprintf("sector/%d", i), n))
 		root := proto4.SectorRoot(&sector)
 		if err := e.ss.StoreSector(root, &sector, nil, e.cm.Tip().Height+10000); err != nil {
 			tb.Fatal(err)
